@@ -17,6 +17,7 @@ def mat_text(names, rows, size=None, sep='  ', nl='\n'):
 
 class Check(PropCheck):
     pid = 'C14'
+    pure_predicate = True
     tol = 2.0 ** -50
     timeout = 900
     rule = ('round trips: matrices of size 1..12 with f64 and f32 cells of every non-NaN class (negative, -0, subnormal, huge, infinities, '
